@@ -19,3 +19,17 @@ Proof. vm_compute. split; reflexivity. Qed.
 Lemma session_keys_as_modelled :
   session_check_as_sent && session_remove_as_sent && session_remove_decodes && session_cookie_value = true.
 Proof. vm_compute. reflexivity. Qed.
+
+(** Round 3: the construction of the limiter (home.go initUsers, auth.go
+    InitAuth, authratelimiter.go newAuthRateLimiter): the limiter variable is
+    assigned once, under exactly [config.AuthAttempts > 0 &&
+    config.AuthBlockMin > 0], the value [newAuthRateLimiter(time.Duration(
+    config.AuthBlockMin) * time.Minute, config.AuthAttempts)]; it is the
+    fourth argument of InitAuth, which stores it in [Auth.rateLimiter]
+    (no other writer in the package); the constructor stores its two
+    parameters; [failedAuthTTL] is one minute.  These are the choices of
+    Model/RateLimit.v [mk_limiter] ([cond_code], [block_dur], [minute_ns]). *)
+Lemma limiter_construction_as_modelled :
+  limiter_cond_both_positive && limiter_built_from_config && limiter_reaches_auth &&
+  limiter_ctor_stores_params && limiter_ttl_is_one_minute = true.
+Proof. vm_compute. reflexivity. Qed.
